@@ -34,10 +34,15 @@ inductive Tok
 /-- `strconv.ParseUint(_, 10, 64)` succeeds -/
 def fitsU64 (n : Nat) : Bool := n < 18446744073709551616
 
+/-- a single identifier. The scanner model joins `Ident ('.' Ident)*` into one token, which is what a type name is; a
+    dimension name is one identifier: after it `ArrayDimension.Parse` finds the `.`, which nothing that may follow a
+    dimension starts with -/
+def plainName (n : String) : Bool := !(n.toList.contains '.')
+
 def pDimCore : List Tok → Option (Dim × List Tok)
-  | .ident n :: .sym ':' :: .int l :: ts => if fitsU64 l then some (⟨some n, some l⟩, ts) else none
+  | .ident n :: .sym ':' :: .int l :: ts => if plainName n && fitsU64 l then some (⟨some n, some l⟩, ts) else none
   | .ident _ :: .sym ':' :: _ => none
-  | .ident n :: ts => some (⟨some n, none⟩, ts)
+  | .ident n :: ts => if plainName n then some (⟨some n, none⟩, ts) else none
   | .int l :: ts => if fitsU64 l then some (⟨none, some l⟩, ts) else none
   | ts => some (⟨none, none⟩, ts)
 
@@ -175,9 +180,12 @@ end
 /-! ### canonical trees: what the parser can produce -/
 
 def dimOk (d : Dim) : Bool :=
-  match d.length with
-  | some l => fitsU64 l
-  | none => true
+  (match d.name with
+   | some n => plainName n
+   | none => true) &&
+  (match d.length with
+   | some l => fitsU64 l
+   | none => true)
 
 /-- the dimension list of an array tail: lengths fit `uint64`, and a single dimension is not the empty one
     (`[]` is the array without dimensions) -/
